@@ -55,6 +55,9 @@ def run(ctx):
         rules.append(ringgen.rule(random.Random(rng.getrandbits(40)), balanced=(i % 4 != 0)))
     rules = list(dict.fromkeys(rules))
     jobs = [{'op': 'run_rule', 'text': t, 'smiles': rng.sample(MOLS, ctx.n(4, 10)), 'timeout': 30} for t in rules]
+    # the first fixed rules (C-H, C-C scission, dehydrogenation) always meet molecules that one match cuts into two IDENTICAL pieces
+    for j in jobs[:3]:
+        j['smiles'] = list(dict.fromkeys(j['smiles'] + ['CC', 'CCCC', '[H][H]', 'OO', 'C=C', 'CCCCCC']))
     # one rule object run on a molecule where the edit cannot be applied (bond exists / no radical left) and THEN on molecules where it
     # can: a failed run must leave nothing behind in the rule object
     SEQ = [('rule rc{ reactant r{ C. labeled a C labeled m single bond to a C. labeled b single bond to m} form bond (a,b) '
